@@ -836,8 +836,10 @@ theorem C08_pick_spec_holds (k : Kind) (preload : Bool) (limit passes n cap : Na
 /-! ### data sources of the generic JSON provider
 
 `DecodeProvider.Run` reads its data source through `ioutil2.NewMultiPassReader`, which needs a source that can `Seek`.
-What `OpenSource` of each source of core/datasource hands out is REGENERATED (`Gen.ProvLoops.srcOpens…`, bridged to
-`Model.C08.opensOf`). -/
+What `OpenSource` of each source of core/datasource hands out is REGENERATED (`Gen.ProvLoops.srcOpensFile / Inline / Buffer /
+Reader`, by classifying with go/types what every `return` of the method hands out; `Bridge.ProvLoops.srcOpens_eq` proves it
+equal to `Model.C08.opensOf`), and so is the fallback of `NewMultiPassReader` for a source without Seek (`mprOnce`, bridged to
+`Model.C08.effPasses` by `mprOnce_eq`). -/
 
 /-- the property's count clause for the generic JSON provider over a data source of kind `k` -/
 def C08_src_statement : Prop :=
@@ -846,7 +848,7 @@ def C08_src_statement : Prop :=
 
 /-- **every source that can be rewound** — a file, inline data (`type: inline`), a reader that can Seek with or without a
 Close of its own — behaves like the file source all the other theorems are about: `runSrc` IS `run`. -/
-theorem C08_src_partial (k : SrcKind) (hk : k ≠ .reader ∧ k ≠ .buffer) (b : Bounds) (n m : Nat) (hn : 0 < n)
+theorem C08_src_partial (k : SrcKind) (hk : k ≠ .readCloser ∧ k ≠ .reader ∧ k ≠ .buffer) (b : Bounds) (n m : Nat) (hn : 0 < n)
     (hm : Spec.C08.expected b.limit b.passes n = some m) :
     runSrc k ⟨.genericJson, false, b, none⟩ n = run ⟨.genericJson, false, b, none⟩ n ∧
     ∃ o, runSrc k ⟨.genericJson, false, b, none⟩ n = some o ∧ o.delivered = cyc n m ∧ o.run = .nil ∧ o.sinkClosed = true := by
@@ -855,12 +857,12 @@ theorem C08_src_partial (k : SrcKind) (hk : k ≠ .reader ∧ k ≠ .buffer) (b 
   rw [hs]
   exact C08_count .genericJson false b n m hn hm
 
-/-- a source that cannot be rewound (a plain io.Reader, a bytes.Buffer) is read ONCE: `min⁺(limit, n)` ammo whatever
+/-- a source that cannot be rewound (a ReadCloser without Seek, a plain io.Reader, a bytes.Buffer) is read ONCE: `min⁺(limit, n)` ammo whatever
 `passes` says; the run still ends cleanly -/
-theorem C08_src_once (k : SrcKind) (hk : k = .reader ∨ k = .buffer) (b : Bounds) (n m : Nat) (hn : 0 < n)
+theorem C08_src_once (k : SrcKind) (hk : k = .readCloser ∨ k = .reader ∨ k = .buffer) (b : Bounds) (n m : Nat) (hn : 0 < n)
     (hm : Spec.C08.expected b.limit 1 n = some m) :
     ∃ o, runSrc k ⟨.genericJson, false, b, none⟩ n = some o ∧ o.delivered = cyc n m ∧ o.run = .nil ∧ o.sinkClosed = true := by
-  have hs : k.seekable = false := by rcases hk with rfl | rfl <;> rfl
+  have hs : k.seekable = false := by rcases hk with rfl | rfl | rfl <;> rfl
   unfold runSrc effPasses
   rw [hs]
   exact C08_count .genericJson false ⟨b.limit, 1⟩ n m hn hm
@@ -874,6 +876,54 @@ theorem C08_src_counterexample : ¬ C08_src_statement := by
   revert this
   decide
 
+/-! ### scenario weights
+
+The "entries" of a scenario file are what a pass of the scenario provider replays: scenario `i` in file order `weight_i / g`
+times in a row (`Model.C08.spread`, `g` = gcd of the weights, weight 0 = 1). -/
+
+/-- **count with scenario weights**: every weight vector of a non-empty scenario file, every limit and passes: exactly
+`min⁺(limit, passes × entries of a pass)` ammo, the spread list over and over — the k-th ammo is scenario
+`(spread ws)[k mod entries]` —, `Run` = nil, sink closed -/
+theorem C08_weights_count (k : Kind) (b : Bounds) (ws : List Nat) (hws : ws ≠ []) (m : Nat)
+    (hm : Spec.C08.expected b.limit b.passes (spread ws).length = some m) :
+    ∃ o, runWeights ⟨k, false, b, none⟩ ws = some o ∧
+      o.delivered = (List.range m).map (fun i => (spread ws).getD (i % (spread ws).length) 0) ∧
+      o.delivered.length = m ∧ o.run = .nil ∧ o.sinkClosed = true := by
+  have hn : 0 < (spread ws).length := by
+    have := (length_spread ws).2
+    have : 0 < ws.length := by cases ws with | nil => exact absurd rfl hws | cons a l => simp
+    omega
+  obtain ⟨o, h1, h2, h3, h4⟩ := C08_count k false b _ m hn hm
+  refine ⟨{ o with delivered := o.delivered.map fun j => (spread ws).getD j 0 }, ?_, ?_, ?_, h3, h4⟩
+  · simp [runWeights, h1]
+  · simp [h2, cyc, List.map_map, Function.comp_def]
+  · simp [h2, cyc]
+
+/-- **what a pass is made of**: it has `Σ weight_i / g` entries, at least one per scenario, and scenario `j` occurs exactly
+`weight_j / g` times in it (a weight 0 counting as 1) — in particular equal weights give one entry each, whatever the
+common value -/
+theorem C08_weights_share (ws : List Nat) (j : Nat) (hj : j < ws.length) :
+    (spread ws).length = (spreadCounts ws).sum ∧ ws.length ≤ (spread ws).length ∧
+    (spread ws).count j = (if ws.getD j 0 = 0 then 1 else ws.getD j 0) / gcdList (normWeights ws) ∧
+    0 < (spread ws).count j := by
+  have hc : (spread ws).count j = (spreadCounts ws).getD j 0 := by
+    have := count_spreadFrom 0 (spreadCounts ws) j
+    simpa [spread] using this
+  have hlen : (spreadCounts ws).length = ws.length := by simp [spreadCounts, normWeights]
+  have hget : (spreadCounts ws).getD j 0 = (if ws.getD j 0 = 0 then 1 else ws.getD j 0) / gcdList (normWeights ws) := by
+    simp [spreadCounts, normWeights, List.getD_eq_getElem?_getD, List.getElem?_map, List.getElem?_eq_getElem hj]
+  refine ⟨(length_spread ws).1, (length_spread ws).2, by rw [hc, hget], ?_⟩
+  rw [hc]
+  have hmem : (spreadCounts ws).getD j 0 ∈ spreadCounts ws := by
+    rw [List.getD_eq_getElem?_getD, List.getElem?_eq_getElem (by rw [hlen]; exact hj)]
+    exact List.getElem_mem _
+  exact spreadCounts_pos ws _ hmem
+
+-- non-vacuity: weights 2,4,6 (gcd 2: a pass is 0,1,1,2,2,2), limit 8, one and a half passes
+example : spread [2, 4, 6] = [0, 1, 1, 2, 2, 2] ∧ spread [0, 2] = [0, 1, 1] ∧ spread [5] = [0] ∧ spread [2, 2] = [0, 1] := by decide
+example : (runWeights ⟨.httpScenario, false, ⟨8, 2⟩, none⟩ [2, 4, 6]).map (fun o => (o.delivered, o.run, o.sinkClosed))
+    = some ([0, 1, 1, 2, 2, 2, 0, 1], .nil, true) := by decide
+
 /-! ### machine integers
 
 limit, passes and the counters of the replay loops are Go `uint`s; `Model.C08.replayStepU` is the loop body of
@@ -886,6 +936,22 @@ theorem C08_replay_no_wrap (passes limit length ammoNum : UInt64) (c : Bool) (hi
     actToNat (replayStepU passes limit length c ammoNum)
       = replayStepN passes.toNat limit.toNat length.toNat c ammoNum.toNat :=
   replayStepU_eq passes limit length ammoNum c hinc
+
+/-- **no wrap in the streaming decoders**: one round of the reading loop of uri / uripost / raw `Scan` (`roundEof`) and of
+jsonline `Scan` (`roundTop`) — the functions the regenerated rounds are bridged to — and the limit check that opens every
+`Scan` and every iteration of runFullScan, written over Go's 64-bit `uint` (`d.ammoNum`, `d.passNum`, `Limit`, `Passes`),
+are the `Nat` ones for EVERY value of the options and all counters that have not themselves wrapped.  With
+`C08_replay_no_wrap` this covers every loop of the `uint` kinds (`Bridge.ProvLoops.optTypes_eq`: the option types are
+regenerated); the `int` kinds (grpc/json, generic JSON) compare counters that only grow by one with options below 2^63. -/
+theorem C08_scan_no_wrap (passes limit ammoNum passNum : UInt64) (c : Bool) (rd : Rd)
+    (ha : ammoNum.toNat + 1 < 2 ^ 64) (hp : passNum.toNat + 1 < 2 ^ 64) :
+    roundEofU passes c rd ammoNum passNum = roundEof passes.toNat c rd ammoNum.toNat passNum.toNat ∧
+    roundTopU passes c rd ammoNum passNum = roundTop passes.toNat c rd ammoNum.toNat passNum.toNat ∧
+    limitReachedU limit ammoNum = decide (limit.toNat ≠ 0 ∧ limit.toNat ≤ ammoNum.toNat) :=
+  ⟨roundEofU_eq passes ammoNum passNum c rd ha hp, roundTopU_eq passes ammoNum passNum c rd ha hp, limitReachedU_eq limit ammoNum⟩
+
+-- non-vacuity: passes = 2^63 at the end of the first pass: the pass is counted, the file is rewound
+example : roundEofU 9223372036854775808 false .eof 3 0 = .rewind 3 1 ∧ limitReachedU 9223372036854775808 5 = false := by decide
 
 /-- the same claim for the loop with a precomputed pass bound `passLimit := Passes * length` -/
 def C08_replay_product_statement : Prop :=
